@@ -226,6 +226,9 @@ func (c *Ctx) builtin(name string, e *ast.CallExpr) Value {
 			v.Len = n.S
 			v.IsNil = False
 			v.Own = true
+			if _, _, isStruct := x.isRepoStruct(elemType(T)); isStruct && !c.spec {
+				c.makeObjects(&v, elemType(T))
+			}
 			return v
 		case KMap:
 			for _, a := range e.Args[1:] {
@@ -1146,6 +1149,40 @@ func (k *Contracts) clockTags() []string {
 		}
 	}
 	return nil
+}
+
+// makeObjects: make([]S, n) for a struct type S of the repository.  The elements are n new objects: non-nil, pairwise
+// distinct, different from every reference the state holds, all fields zero.
+func (c *Ctx) makeObjects(v *Value, et types.Type) {
+	x := c.x
+	arr := Fresh("make.objs", ArraySort(SInt, SRef))
+	i := BVar("i!mk", SInt)
+	j := BVar("j!mk", SInt)
+	in := func(k *Term) *Term { return And(Le(IntLit(0), k), Lt(k, v.Len)) }
+	facts := []*Term{
+		Forall([]*Term{i}, Implies(in(i), Neq(Select(arr, i), Nil))),
+		Forall([]*Term{i, j}, Implies(And(in(i), in(j), Neq(i, j)), Neq(Select(arr, i), Select(arr, j)))),
+	}
+	if x.contracts().Options["freshalloc"] {
+		facts = append(facts, Forall([]*Term{i}, Implies(in(i), freshTerm(Select(arr, i), c.st.store))))
+	}
+	owner := typeName(et)
+	_, st, _ := x.isRepoStruct(et)
+	zero := x.zeroValue(et)
+	for k := 0; k < st.NumFields(); k++ {
+		f := st.Field(k)
+		h := x.load(c.st, "H:"+owner+"."+f.Name(), f.Type())
+		zf := zero.Fields[f.Name()]
+		hc, zc := h.components(), zf.components()
+		if len(hc) != len(zc) {
+			panic(engineErr("make([]%s, n): field %s has a shape the allocation model does not cover", owner, f.Name()))
+		}
+		for q := range hc {
+			facts = append(facts, Forall([]*Term{i}, Implies(in(i), Eq(Select(hc[q], Select(arr, i)), zc[q]))))
+		}
+	}
+	x.addFact(arr, And(facts...))
+	v.Arr = arr
 }
 
 // isNilSliceExpr: nil, []T(nil) or []T{}
